@@ -12,7 +12,7 @@ From Coq.Strings Require Import Byte.
 Require Import GV.Base.Res GV.Base.Byt GV.Base.Ints GV.Model.Leb GV.Model.Prim GV.Spec.LebSpec.
 Require Import GV.Spec.CfiSpec GV.Model.CfiRd.
 Require Export GV.Proofs.CfiRdBase GV.Proofs.CfiRdPtr GV.Proofs.CfiRdBs GV.Proofs.CfiRdIter
-               GV.Proofs.CfiRdSafe GV.Proofs.CfiRdEnt GV.Proofs.CfiRdHdr.
+               GV.Proofs.CfiRdSafe GV.Proofs.CfiRdEnt GV.Proofs.CfiRdHdr GV.Proofs.CfiRdHist.
 Import ListNotations.
 Local Open Scope N_scope.
 
@@ -113,3 +113,8 @@ Definition ex_fds : list fde :=
 Definition ex_rows2 : list (list byte * list byte) :=
   [ (un_bytes 4 false 3907, un_bytes 4 false (4096 + 51)); (un_bytes 4 false 8228, un_bytes 4 false (4096 + 28)) ].
 Definition ex_hdr2 : hdr := mkhdr 8 false (Direct 4096) 2 3 (mkrd 12 (flat ex_rows2)).
+
+(* the rows of ex_hdr decoded, and the same table followed by 8 padding bytes *)
+Definition ex_dec : list (pointer * pointer) :=
+  [(Direct 256, Direct 4112); (Direct 512, Direct 4160); (Direct 768, Direct 4208)].
+Definition ex_hdr_pad : hdr := mkhdr 8 false (Direct 4096) 3 3 (mkrd 12 (flat ex_rows ++ map n2b [9; 9; 9; 9; 9; 9; 9; 9])).
